@@ -364,6 +364,18 @@ def finalizer_family(tier, rng):
                     o2 = list(reversed(order))
                     out.append(Inst(n, e, set(), o2, fin_act={who: (act, 0)}, family="fin_%s_%s" % (act.lower(), nm),
                                     props=["C01", "C03", "C04", "C05", "C06", "C11", "C12"], tier="thorough"))
+    # an allocation inside a finalizer / destructor run by a plain Cc::drop starts an AUTOMATIC collection
+    # (Cc::new -> trigger_collection) while another garbage object is buffered: that collection's trace calls must
+    # see is_tracing(), it must reclaim the garbage, and nothing may nest
+    for kind in ("fin", "drop"):
+        kw = {("fin_act" if kind == "fin" else "drop_act"): {0: ("AllocAuto", 0)}}
+        out.append(Inst(2, [(1, "s0", 1)], {0}, [("release", 1)], script="release0", family="rc%s_allocauto_selfloop" % kind,
+                        props=["C01", "C03", "C05", "C12", "C15"], feats=["full"], **kw))
+        out.append(Inst(3, [(1, "s0", 2), (2, "s0", 1)], {0}, [("release", 1), ("release", 2)], script="release0", family="rc%s_allocauto_cycle" % kind,
+                        props=["C01", "C03", "C05", "C12", "C15"], feats=["full"], **kw))
+        # ... and from a callback of a running collection it must NOT start one
+        out.append(Inst(2, NAMED2["two_cycle"], set(), [("release", 0), ("release", 1)], family="%s_allocauto_two_cycle" % kind,
+                        props=["C01", "C03", "C05", "C12", "C15"], feats=["full"], **kw))
     # a finalizer (or destructor) releases the last outside pointer to ANOTHER garbage structure: that structure is
     # buffered during the pass and must survive the re-buffering of the finalized set to be reclaimed later
     for kind in ("fin", "drop"):
